@@ -59,6 +59,12 @@ def cases(rng, tier):
     for comp in gen.compositions(N):
         s = gen.spell(gen.arrange(comp, rng), rng)
         yield phase_case(s, rng, kw={}, kind="region-exhaustive")
+    for entry, cs in multicall_cases(rng):
+        lines, metas = [], []
+        for ls, a in cs:
+            metas.append((len(lines), a))
+            lines += ls
+        yield Case(lines, {"kind": "multi-call", "entry": entry, "args": cs[0][1], "multicall": metas})
     n = 40 if tier == "quick" else 400
     for kind, s in gen.rand_seqs(rng, n, 120):
         yield phase_case(s, rng, rng.choice(["sp_show_phase", "sp_save_phase", "sp_show_uversky", "sp_save_uversky"]))
@@ -82,7 +88,7 @@ def cases(rng, tier):
         seqs = [gen.rand_seq(rng, rng.choice(gen.KINDS), rng.randint(5, 40)) for _ in range(m)]
         labels = ["s%d" % i for i in range(m)] if rng.random() < 0.7 else []
         entry = rng.choice(["pl_show_multi_phase2", "pl_save_multi_phase2", "pl_show_multi_uversky2", "pl_save_multi_uversky2"])
-        a = dict(kw, seqs=seqs, labels=labels, fmt="png")
+        a = dict(kw, seqs=seqs, labels=labels, fmt=rng.choice(["png", "pdf"]))
         a.pop("label", None)
         lines = [ptok(entry, a)]
         for sq in seqs:
@@ -91,9 +97,29 @@ def cases(rng, tier):
         xs = [round(rng.random() * 0.5, 3) for _ in range(m)]
         ys = [round(rng.random() * 0.5, 3) for _ in range(m)]
         entry = rng.choice(["pl_show_multi_phase", "pl_save_multi_phase", "pl_show_multi_uversky", "pl_save_multi_uversky"])
-        a = dict(kw, xs=xs, ys=ys, labels=labels, fmt="png")
+        a = dict(kw, xs=xs, ys=ys, labels=labels, fmt=rng.choice(["png", "pdf"]))
         a.pop("label", None)
         yield Case([ptok(entry, a)], {"kind": "plots-multi", "entry": entry, "args": a})
+
+
+def multicall_cases(rng):
+    """several label-less calls of the same multi-sequence entry point in ONE process with different numbers of sequences
+    (shared mutable default arguments would leak from one call into the next)"""
+    for entry in ("pl_show_multi_phase2", "pl_show_multi_uversky2", "pl_show_multi_uversky", "pl_show_multi_phase"):
+        for counts in ((3, 2, 5, 1), (1, 4, 2)):
+            cs = []
+            for m in counts:
+                seqs = [gen.rand_seq(rng, rng.choice(gen.KINDS), rng.randint(5, 30)) for _ in range(m)]
+                if entry.endswith("2"):
+                    a = {"seqs": seqs, "labels": []}
+                    lines = [ptok(entry, a)]
+                    for sq in seqs:
+                        lines += ["q fplus " + sq, "q fminus " + sq, "q mnc " + sq, "q uversky " + sq]
+                else:
+                    a = {"xs": [round(rng.random() * 0.5, 3) for _ in range(m)], "ys": [round(rng.random() * 0.5, 3) for _ in range(m)], "labels": []}
+                    lines = [ptok(entry, a)]
+                cs.append((lines, a))
+            yield entry, cs
 
 
 PHASE_POLYS = [[[0, 0], [0, 0.25], [0.25, 0]], [[0, 0.25], [0, 0.35], [0.35, 0], [0.25, 0]],
@@ -117,8 +143,22 @@ def near(a, b, tol=1e-9):
 def judge(case, reals, gens, specs):
     out = []
     entry, a = case.tags.get("entry"), case.tags.get("args")
+    if entry is None:
+        from ..real import unhex6
+        tk = case.block[0].split(" ")
+        entry, a = tk[1], json.loads(unhex6(tk[2]))
+    if case.tags.get("multicall"):
+        for pos, aa in case.tags["multicall"]:
+            r = reals[pos]
+            m = len(aa.get("seqs", aa.get("xs", [])))
+            if r[0] != "fig" or len(r[1].get("markers", [])) != m or not r[1].get("returned"):
+                out.append(("violation", pos, "%s: label-less call number %d of the same entry point in one process (%d sequences) -> %s" % (
+                    entry, case.tags["multicall"].index((pos, aa)) + 1, m, str(r)[:200])))
+        return out
     fd = reals[0]
     for i in range(1, len(reals)):
+        if case.block[i].startswith("plot "):
+            continue
         if not core.match(reals[i], specs[i])[0]:
             out.append(("violation", i, "%s: real=%s spec=%s" % (case.block[i], str(reals[i])[:120], specs[i][:120])))
         elif not core.match(reals[i], gens[i])[0]:
